@@ -413,8 +413,10 @@ class Out(object):
 # as a filehandle (each line is either a str or unicode)", the type comment adds bytes and iterables of
 # bytes lines, the parser "supports both lists of lines without the trailing newline and those with";
 # parse_changelog() of an existing object takes the same.  These are the forms in which a text arrives:
-TEXT_FORMS = ("str", "bytes", "reuse_str")                      # the "empty changelog file" rule applies
+TEXT_FORMS = ("str", "bytes", "reuse_str", "reused_text")       # the "empty changelog file" rule applies
 LINE_FORMS = ("stringio", "bytesio", "file", "list_nl", "list", "list_bytes", "iter", "tuple", "reuse_list", "reused_obj")
+BASE_TEXT = ("str", "bytes")
+BASE_LINES = ("stringio", "bytesio", "file", "list_nl", "list", "list_bytes", "iter", "tuple")
 FORMS = TEXT_FORMS + LINE_FORMS
 # for random draws: the in-memory forms mostly, a real temporary file now and then
 FORMS_W = [f for f in FORMS if f != "file"] * 3 + ["file"]
@@ -441,7 +443,7 @@ def make_source(text, form):
         f.write(text)
         f.seek(0)
         return f
-    if form in ("list_nl", "reused_obj"):
+    if form == "list_nl":
         return text.splitlines(True)
     if form in ("list", "reuse_list"):
         return text.split("\n")[:-1] if text.endswith("\n") else text.split("\n")
@@ -454,23 +456,92 @@ def make_source(text, form):
     raise AssertionError(form)
 
 
+def prior_parses(rng, text):
+    """what an ALREADY USED object went through before the parse under test: 1-3 earlier inputs of any
+    kind -- a text without final newline, empty / white-space only, truncated inside a block, CRLF line
+    ends, malformed, more / other blocks, other leading blank lines, latin-1 bytes with an encoding
+    argument -- in any input form, with any allow_empty_author / strict / max_blocks setting.  They are
+    never judged (warnings and ChangelogParseError ignored): a parse depends on nothing but its own input.
+    -> list of (text or bytes, form, kwargs)"""
+    cut = max(1, (len(text) * rng.choice([3, 5, 6])) // 10)
+    pool = [text[:-1] if text.endswith("\n") else text + "x", OTHER_TEXT[:-1], "", "  \n\n", text[:cut], text.replace("\n", "\r\n"),
+            "junk line\n" + text, " -- \n" + text, text + OTHER_TEXT, "\n\n\n" + OTHER_TEXT, OTHER_TEXT + "vim: x\nslurped\n",
+            OTHER_TEXT.replace("O T", "\u00d3 T\u00e9")]
+    out = []
+    if rng.random() < 0.5:                  # the very same text, leniently, before: a second parse must see it afresh
+        out.append((text, rng.choice(BASE_TEXT + BASE_LINES), dict(allow_empty_author=rng.random() < 0.5, strict=False)))
+    for _ in range(rng.choice([1, 1, 2, 3]) - len(out) or 1):
+        j = rng.randrange(len(pool))
+        t = pool[j]
+        kw = dict(allow_empty_author=rng.random() < 0.5, strict=rng.random() < 0.3)
+        if rng.random() < 0.15:
+            kw["max_blocks"] = 1
+        form = rng.choice(BASE_TEXT * 3 + BASE_LINES)
+        if j == len(pool) - 1 and rng.random() < 0.7:      # latin-1 input announced by the encoding argument of the call
+            kw["encoding"] = "latin-1"
+            form = rng.choice(("bytes", "bytesio", "list_bytes"))
+        out.append((t, form, kw))
+    return out
+
+
 def new_changelog(text, aea, strict, form="str"):
-    """the text handed to the real code in one of the documented forms (raises what the code raises)"""
+    """the text handed to the real code in one of the documented forms (raises what the code raises).
+    reuse_str / reuse_list: parse_changelog() on a new object; reused_text / reused_obj: on an object that
+    has been used for 1-3 arbitrary earlier parses (prior_parses), the text then arrives in a str/bytes
+    form resp. in a file-object / iterable form."""
+    import random
     from debian.changelog import Changelog
+    if form in ("reused_text", "reused_obj"):
+        rng = random.Random("%d-%d-%s-%s" % (len(text), sum(map(ord, text[:200])), aea, strict))
+        cl = None
+        with capture():                        # the earlier parses are not judged; their warnings stay in here
+            for t, f, kw in prior_parses(rng, text):
+                enc = kw.get("encoding", "utf-8")
+                src = make_source(t, f) if enc == "utf-8" else _latin1_source(t, f)
+                try:
+                    if cl is None and "encoding" not in kw and rng.random() < 0.5:
+                        cl = Changelog(src, **kw)
+                    else:
+                        cl = cl or Changelog()
+                        cl.parse_changelog(src, **kw)
+                except Exception:              # ChangelogParseError of a strict earlier parse, decoding errors ...
+                    cl = cl or Changelog()
+                finally:
+                    if hasattr(src, "close"):
+                        src.close()
+                if rng.random() < 0.5:
+                    try:
+                        str(cl)
+                    except Exception:
+                        pass
+        final = rng.choice(BASE_TEXT if form == "reused_text" else BASE_LINES)
+        src = make_source(text, final)
+        try:
+            cl.parse_changelog(src, allow_empty_author=aea, strict=strict)
+            return cl
+        finally:
+            if hasattr(src, "close"):
+                src.close()
     src = make_source(text, form)
     try:
         if form.startswith("reuse"):
-            if form == "reused_obj":          # an object that already holds another changelog
-                cl = Changelog(OTHER_TEXT)
-                str(cl)
-            else:
-                cl = Changelog()
+            cl = Changelog()
             cl.parse_changelog(src, allow_empty_author=aea, strict=strict)
             return cl
         return Changelog(src, allow_empty_author=aea, strict=strict)
     finally:
         if hasattr(src, "close"):          # StringIO / BytesIO / the temporary file / a generator
             src.close()
+
+
+def _latin1_source(text, form):
+    import io
+    b = text.encode("latin-1", "replace")
+    if form == "bytesio":
+        return io.BytesIO(b)
+    if form == "list_bytes":
+        return b.splitlines(True)
+    return b
 
 
 class capture(object):
@@ -1156,6 +1227,40 @@ def stress_case(rng, classes, struct, mode, big=False):
 
 
 HIST_NEG = [("BlockRenderCache", {"FormatIsCurrent"}), ("OlderBlocksMemo", {"FormatIsCurrent"}), ("InternedVersions", {"ExposedAsWritten"})]
+
+
+def reuse_cfg(bug="none"):
+    """Mode "reuse": the parse under test on an already used object (any leftover flag x form of this input)"""
+    return """CONSTANTS
+  Mode = "reuse"
+  Classes = {}
+  AEAs = {FALSE}
+  MaxLines = 100
+  MaxBlocks = 2
+  MaxBody = 2
+  MaxLead = 1
+  MaxSep = 1
+  Budget = 0
+  MaxEdits = 0
+  Bug = "%s"
+  Emit = FALSE
+SPECIFICATION Spec
+INVARIANT BookkeepingOK
+INVARIANT NoWarning
+INVARIANT RoundTrip
+INVARIANT BlocksAsWritten
+INVARIANT ParseIsHistoryFree
+CHECK_DEADLOCK FALSE
+""" % bug
+
+
+def reuse_controls(ctx):
+    """design level: ParseIsHistoryFree holds; the sticky per-object flag violates it"""
+    r = ctx.tlc_must_hold("Changelog", reuse_cfg(), workers=1, want_tags=set(), java_opts=jopts(ctx))
+    n = ctx.tlc("Changelog", reuse_cfg("StickyParseFlag"), count=False, workers=1, want_tags=set(), java_opts=jopts(ctx))
+    if n.violated != "ParseIsHistoryFree":
+        raise core.MachineryError("spec-level negative control Bug=StickyParseFlag: expected ParseIsHistoryFree violated, TLC reports %r" % n.violated)
+    return {"reuse_states": r.distinct, "StickyParseFlag": n.violated}
 
 
 def norm_contents(contents):
